@@ -337,7 +337,7 @@ impl Prop for C04 {
         "generated: network x road-class table with per-query allowed set (numbers or mapped names) x vehicle-restriction rows (6 kinds, 5 distance / 3 weight units, built through the CSV row parser, values pushed >= 1 % away from the vehicle's value) with vehicle parameters in other units x restricted-turn pairs x any combination through the combined model x class ids over the whole u8 range (0, 1, 64, 65, 129, 255) x a vehicle description the parser refuses (axles as a float: rejected or judged, never unrestricted) x another, smaller vehicle answered first by the same service x optional cut edges (EdgeCutFrontierModel) x all algorithms x vertex/edge orientation x optional destination; the real application-level frontier models are built either through the application's builders from configuration JSON and generated input files (class file, restriction CSV with repeated rows per edge and kind, turn CSV; same-type models split over two files inside combined) or in memory from their services. Oracle: independent allowed(edge) predicate with SI unit factors on every route edge and tree branch, and the restricted-pair list on every consecutive route pair. non-trivial = the unrestricted search's route uses a forbidden edge or turn (the restriction changed the answer)".to_string()
     }
     fn cases(&self, tier: Tier) -> u32 {
-        tier.pick(50_000, 2_000_000)
+        tier.pick(100_000, 2_000_000)
     }
     fn assumptions(&self) -> Vec<String> {
         vec![
